@@ -95,6 +95,16 @@ def memo_findings(mod: PyModule, fn: ast.FunctionDef, inputs: Iterable[str], mem
                     if any(isinstance(x, ast.Name) and x.id in inputs for a in list(c.args) + [k.value for k in c.keywords] for x in ast.walk(a)):
                         for ln, what in memo_findings(mod, h, hin, memory_dependent, _depth + 1, storage, persist_in):
                             out.append((ln, what + f" (helper of {fn.name})"))
+    if _depth < 3:
+        # module-level helper functions the function hands its inputs to
+        modfns = {f_.name: f_ for f_ in mod.tree.body if isinstance(f_, (ast.FunctionDef, ast.AsyncFunctionDef))}
+        for c in _live_walk(fn):
+            if isinstance(c, ast.Call) and isinstance(c.func, ast.Name) and c.func.id in modfns and modfns[c.func.id] is not fn:
+                h = modfns[c.func.id]
+                hin = tuple(a.arg for a in h.args.args + h.args.kwonlyargs)
+                if any(isinstance(x, ast.Name) and x.id in inputs for a in list(c.args) + [k.value for k in c.keywords] for x in ast.walk(a)):
+                    for ln, what in memo_findings(mod, h, hin, memory_dependent, _depth + 1, storage, persist_in):
+                        out.append((ln, what + f" (helper of {fn.name})"))
     for d in fn.decorator_list:
         dd = d.func if isinstance(d, ast.Call) else d
         nm = dd.id if isinstance(dd, ast.Name) else getattr(dd, "attr", "")
